@@ -1126,7 +1126,20 @@ def _unwrap_or_default_any(m, args, ci):
     if v.variant in ('Some', 'Ok'):
         return v.fields[0]
     g = ci.generic_args()
-    d = _default_of(m, g[0]) if g else None
+    first = None
+    if g:
+        # Result<T, E>: the generic list may arrive as one string "T, E" -- T is what precedes the first top-level comma
+        txt, depth = g[0], 0
+        for i, ch in enumerate(txt):
+            if ch in '<([':
+                depth += 1
+            elif ch in '>)]':
+                depth -= 1
+            elif ch == ',' and depth == 0:
+                txt = txt[:i]
+                break
+        first = txt.strip()
+    d = _default_of(m, first) if first else None
     if d is None:
         raise Unsupported('unwrap_or_default of ' + str(g))
     return d
@@ -1166,3 +1179,52 @@ def _to_owned(m, args, ci):
     if s.tag is not None and not s.items:
         return Seq([], kind, s.tag)
     return Seq([clone_value(m, x) for x in s.items[a:b]], kind, s.tag)
+
+
+# ---- maps: iteration ------------------------------------------------------------------------------------
+def _key_sort(m, entries):
+    """Key order of a BTreeMap: decided by the solver pairwise (insertion sort); Option keys: None < Some(_)."""
+    def kv(k):
+        k = deref_val(k) if isinstance(k, Ref) else k
+        if isinstance(k, Adt) and k.variant in ('Some', 'None'):
+            return (0, 0) if k.variant == 'None' else (1, k.fields[0])
+        return (1, k)
+    out = []
+    for ent in entries:
+        a = kv(ent[0])
+        i = len(out)
+        while i > 0:
+            b = kv(out[i - 1][0])
+            if a[0] != b[0]:
+                less = a[0] < b[0]
+            else:
+                less = _truth(m, sym.lt(a[1], b[1]), 'btreemap.key<')
+            if not less:
+                break
+            i -= 1
+        out.insert(i, ent)
+    return out
+
+@I.rx(r'^<(std::collections::)?(HashMap|BTreeMap) as IntoIterator>::into_iter$|(^|::)(HashMap|BTreeMap)::(into_iter|iter|iter_mut|values|values_mut|into_values|keys|into_keys)$', prio=2)
+def _map_iter(m, args, ci):
+    hm = deref_val(args[0]) if isinstance(args[0], Ref) else args[0]
+    ents = list(hm.entries)
+    if 'BTreeMap' in (ci.raw or ci.name):
+        ents = _key_sort(m, ents)
+    meth = ci.name.rsplit('::', 1)[1]
+    owned = not isinstance(args[0], Ref)
+    out = []
+    for k, cell in ents:
+        if meth in ('values', 'values_mut'):
+            out.append(Ref(cell, 'v'))
+        elif meth == 'into_values':
+            out.append(cell.v)
+        elif meth == 'keys':
+            out.append(Ref(Cell(k), 'v'))
+        elif meth == 'into_keys':
+            out.append(k)
+        elif owned:
+            out.append(tuple_(k, cell.v))
+        else:
+            out.append(tuple_(Ref(Cell(k), 'v'), Ref(cell, 'v')))
+    return OwnedIter(out)
